@@ -13,9 +13,9 @@ Inductive inode :=
 
 Record phandle := mkPH { pino : nat; ppos : nat; prdc : nat; pclosed : bool; pro : bool }.
 
-Record pstate := mkP { ptree : list (str * nat); pinodes : list inode; phandles : list phandle }.
+Record pfs := mkP { ptree : list (str * nat); pinodes : list inode; phandles : list phandle }.
 
-Definition p_init : pstate := mkP [(s_slash, 0%nat)] [IDir 493] [].
+Definition p_init : pfs := mkP [(s_slash, 0%nat)] [IDir 493] [].
 
 (* outcome classes of the property *)
 Inductive pclass := CNotExist | CExist | CClosed | COther.
@@ -27,7 +27,7 @@ Inductive pout :=
 | PFail (c : pclass)
 | PHandle (h : nat)
 | PStat (isdir : bool) (size : option nat)      (* size of a regular file *)
-| PBytes (b : bytes) (eof : bool)
+| PData (b : bytes) (eof : bool)
 | PNum (n : nat)                                (* bytes written / new offset *)
 | PNames (l : list str) (eof : bool).
 
@@ -40,35 +40,35 @@ Definition pbase (k : str) : str := snd (path_split k).
 Definition prewrite (a b k : str) : str := b ++ skipn (length a) k.
 
 (* ---------- the tree ---------- *)
-Definition plookup (t : pstate) (k : str) : option nat := alist_get k (ptree t).
-Definition pinode (t : pstate) (i : nat) : option inode := nth_error (pinodes t) i.
-Definition pnode_at (t : pstate) (k : str) : option inode :=
+Definition plookup (t : pfs) (k : str) : option nat := alist_get k (ptree t).
+Definition pinode (t : pfs) (i : nat) : option inode := nth_error (pinodes t) i.
+Definition pnode_at (t : pfs) (k : str) : option inode :=
   match plookup t k with Some i => pinode t i | None => None end.
-Definition pis_dir (t : pstate) (k : str) : bool :=
+Definition pis_dir (t : pfs) (k : str) : bool :=
   match pnode_at t k with Some (IDir _) => true | _ => false end.
 
-Definition set_tree (t : pstate) (tr : list (str * nat)) : pstate := mkP tr (pinodes t) (phandles t).
-Definition set_inode (t : pstate) (i : nat) (x : inode) : pstate := mkP (ptree t) (list_set i x (pinodes t)) (phandles t).
-Definition set_phandle (t : pstate) (h : nat) (x : phandle) : pstate := mkP (ptree t) (pinodes t) (list_set h x (phandles t)).
+Definition set_tree (t : pfs) (tr : list (str * nat)) : pfs := mkP tr (pinodes t) (phandles t).
+Definition set_inode (t : pfs) (i : nat) (x : inode) : pfs := mkP (ptree t) (list_set i x (pinodes t)) (phandles t).
+Definition set_phandle (t : pfs) (h : nat) (x : phandle) : pfs := mkP (ptree t) (pinodes t) (list_set h x (phandles t)).
 (* a new inode under a new name *)
-Definition padd (t : pstate) (k : str) (x : inode) : pstate :=
+Definition padd (t : pfs) (k : str) (x : inode) : pfs :=
   mkP (alist_set k (length (pinodes t)) (ptree t)) (pinodes t ++ [x]) (phandles t).
-Definition popen (t : pstate) (i : nat) (ro : bool) : pstate * pout :=
+Definition popen (t : pfs) (i : nat) (ro : bool) : pfs * pout :=
   (mkP (ptree t) (pinodes t) (phandles t ++ [mkPH i 0 0 false ro]), PHandle (length (phandles t))).
 
-Definition phas_children (t : pstate) (k : str) : bool := existsb (fun kv => pbelow k (fst kv)) (ptree t).
+Definition phas_children (t : pfs) (k : str) : bool := existsb (fun kv => pbelow k (fst kv)) (ptree t).
 
 (* the listing of directory d: base names of the names whose parent is d, ascending *)
-Definition pchildren (t : pstate) (d : str) : list str :=
+Definition pchildren (t : pfs) (d : str) : list str :=
   map fst (filter (fun kv => negb (beqb (fst kv) s_slash) && beqb (pparent (fst kv)) d) (ptree t)).
-Definition plisting (t : pstate) (d : str) : list str :=
+Definition plisting (t : pfs) (d : str) : list str :=
   sort_by bltb (map pbase (pchildren t d)).
 (* the name of a directory inode, if it still has one *)
-Definition pname_of (t : pstate) (i : nat) : option str :=
+Definition pname_of (t : pfs) (i : nat) : option str :=
   match filter (fun kv => Nat.eqb (snd kv) i) (ptree t) with (k, _) :: _ => Some k | [] => None end.
 
 (* mkdir -p: create k if it is missing, then its missing ancestors, nearest first *)
-Fixpoint p_mkchain (fuel : nat) (t : pstate) (k : str) (perm : Z) : pstate :=
+Fixpoint p_mkchain (fuel : nat) (t : pfs) (k : str) (perm : Z) : pfs :=
   match fuel with
   | O => t
   | S fu => match plookup t k with
@@ -80,16 +80,16 @@ Fixpoint p_mkchain (fuel : nat) (t : pstate) (k : str) (perm : Z) : pstate :=
 Definition fl (flag bit : Z) : bool := 0 <? Z.land flag bit.
 
 (* ---------- one call ---------- *)
-Definition p_step (t : pstate) (o : op) : pstate * pout :=
-  let with_h (i : nat) (k : phandle -> pstate * pout) : pstate * pout :=
+Definition p_step (t : pfs) (o : op) : pfs * pout :=
+  let with_h (i : nat) (k : phandle -> pfs * pout) : pfs * pout :=
     match nth_error (phandles t) i with Some h => k h | None => (t, PNoSlot) end in
   (* I/O goes to the regular file the handle is bound to *)
-  let with_file (i : nat) (k : phandle -> bytes -> option Z -> pstate * pout) : pstate * pout :=
+  let with_file (i : nat) (k : phandle -> bytes -> option Z -> pfs * pout) : pfs * pout :=
     with_h i (fun h => match pinode t (pino h) with
                        | Some (IFile d pm) => k h d pm
                        | _ => (t, PFail COther)
                        end) in
-  let seth (i : nat) (h : phandle) : pstate := set_phandle t i h in
+  let seth (i : nat) (h : phandle) : pfs := set_phandle t i h in
   match o with
   | Mkdir p perm =>
       let k := normalize_path p in
@@ -177,11 +177,11 @@ Definition p_step (t : pstate) (o : op) : pstate * pout :=
   | HRead i n => with_file i (fun h d pm =>
       if pclosed h then (t, PFail CClosed) else
       let b := pread d (ppos h) (Z.to_nat n) in
-      (seth i (mkPH (pino h) (ppos h + length b) (prdc h) false (pro h)), PBytes b ((0 <? n) && Nat.eqb (length b) 0)))
+      (seth i (mkPH (pino h) (ppos h + length b) (prdc h) false (pro h)), PData b ((0 <? n) && Nat.eqb (length b) 0)))
   | HReadAt i n off => with_file i (fun h d pm =>
       if off <? 0 then (t, PFail COther) else
       if pclosed h then (t, PFail CClosed) else
-      let b := pread d (Z.to_nat off) (Z.to_nat n) in (t, PBytes b (zlen b <? n)))
+      let b := pread d (Z.to_nat off) (Z.to_nat n) in (t, PData b (zlen b <? n)))
   | HWrite i b | HWriteString i b => with_file i (fun h d pm =>
       if pclosed h then (t, PFail CClosed) else
       if pro h then (t, PFail COther) else
@@ -228,7 +228,7 @@ Definition p_step (t : pstate) (o : op) : pstate * pout :=
       end)
   end.
 
-Fixpoint p_run (t : pstate) (ops : list op) : pstate * list pout :=
+Fixpoint p_run (t : pfs) (ops : list op) : pfs * list pout :=
   match ops with
   | [] => (t, [])
   | o :: r => let '(t1, x) := p_step t o in let '(t2, xs) := p_run t1 r in (t2, x :: xs)
@@ -236,7 +236,7 @@ Fixpoint p_run (t : pstate) (ops : list op) : pstate * list pout :=
 
 (* ---------- what can be observed of a state ---------- *)
 (* kind, contents and explicitly set permission bits of a name *)
-Definition pentry (t : pstate) (k : str) : option (bool * bytes * option Z) :=
+Definition pentry (t : pfs) (k : str) : option (bool * bytes * option Z) :=
   match pnode_at t k with
   | Some (IDir pm) => Some (true, [], Some pm)
   | Some (IFile d pm) => Some (false, d, pm)
@@ -261,9 +261,9 @@ Definition mproj (o : op) (r : res) : pout :=
   | RErr e => PFail (class_of_err e)
   | RHandle h => PHandle h
   | RInfo fi => PStat (fi_dir fi) (if fi_dir fi then None else Some (Z.to_nat (fi_size fi)))
-  | RData b None => PBytes b false
+  | RData b None => PData b false
   | RData b (Some e) =>
-      if eof_err e then PBytes b (match o with HRead _ n | HReadAt _ n _ => 0 <? n | _ => true end)
+      if eof_err e then PData b (match o with HRead _ n | HReadAt _ n _ => 0 <? n | _ => true end)
       else PFail (class_of_err e)
   | RCount n None | RPos n None => PNum (Z.to_nat n)
   | RCount _ (Some e) | RPos _ (Some e) => PFail (class_of_err e)
